@@ -1,0 +1,27 @@
+//go:build verif
+
+// Contracts for contract-based deductive verification (checked by /verif/govc).
+// This file is comment-only and compiled only with the build tag "verif".
+
+package topologyaware
+
+// ---- C04: re-allocation of a container's memory (cold-start completion) is applied to every affected container ----
+// grant.ReallocMemory() asks the memory allocator to widen the container's zone; on success the grant records the zone
+// the allocator now assigns to the container and tells it to the runtime, and every OTHER container whose zone the
+// allocator changed in the same step gets its grant updated and its new zone told to the runtime, in the same call.
+//@ func (*grant).ReallocMemory tags=C04 ints=bv64
+//@   requires cg != nil && cg.node != nil && cg.container != nil && opt != nil && rtOK()
+//@   let P = nPolicy(cg.node)
+//@   let A = nPolicy(cg.node).memAllocator
+//@   let me = ctrID(cg.container)
+//@   requires P != nil && A != nil && libmem.idle(A) && grantsOK(P) && me in P.allocations.grants && P.allocations.grants[me] == cg
+//@   ensures[C04] result == nil ==> me in A.users && cg.memZone == A.users[me]
+//@   ensures[C04] result == nil && opt.PinMemory ==> rtMems[cg.container] == A.users[me].MemsetString()
+//@   ensures[C04] result == nil ==> forall id string :: id != me && id in P.allocations.grants && old(id in A.users) && A.users[id] != old(A.users[id]) ==>
+//@        gr(P.allocations.grants[id]).memZone == A.users[id] && (opt.PinMemory ==> rtMems[gr(P.allocations.grants[id]).container] == A.users[id].MemsetString())
+//@ loop 0 in (*grant).ReallocMemory at "range updates"
+//@   modifies comp grant.memZone, rtMems[*], rtMemsW[*]
+//@   invariant rtOK() && opt != nil && grantsOK(P) && P.allocations.grants[me] == cg && me in P.allocations.grants && !(me in updates)
+//@   invariant cg.memZone == zone && (opt.PinMemory ==> rtMems[cg.container] == zone.MemsetString())
+//@   invariant forall id string :: seen(id) && id in P.allocations.grants ==>
+//@        gr(P.allocations.grants[id]).memZone == updates[id] && (opt.PinMemory ==> rtMems[gr(P.allocations.grants[id]).container] == updates[id].MemsetString())
